@@ -2036,3 +2036,95 @@ mod test {
         }
     }
 }
+
+#[cfg(redb_verif)]
+#[allow(missing_docs, clippy::pedantic)]
+impl Database {
+    /// Verification hook: read-only snapshot of allocator, roots, unpersisted sets and tracker
+    pub fn verif_snapshot(&self) -> crate::verif_types::VerifSnapshot {
+        crate::verif_types::VerifSnapshot {
+            mem: self.mem.verif_mem_state(),
+            tracker: self.transaction_tracker.verif_state(),
+        }
+    }
+
+    /// Verification hook: all pages of the table tree rooted at `root` (master tree, every table,
+    /// multimap subtrees), computed with redb's own traversal
+    pub fn verif_tree_pages(
+        &self,
+        root: crate::verif_types::VerifRoot,
+    ) -> Result<Vec<u64>, StorageError> {
+        let header = root.map(|(page, checksum, length)| {
+            BtreeHeader::new(PageNumber::from_le_bytes(page.to_le_bytes()), checksum, length)
+        });
+        let tables = TableTree::new(
+            header,
+            PageHint::None,
+            Arc::new(TransactionGuard::untracked()),
+            PageResolver::new(self.mem.clone()),
+        )?;
+        let mut pages = vec![];
+        tables.visit_all_pages(|path| {
+            pages.push(u64::from_le_bytes(path.page_number().to_le_bytes()));
+            Ok(())
+        })?;
+        Ok(pages)
+    }
+
+    fn verif_page_list_table(
+        &self,
+        system_root: Option<BtreeHeader>,
+        name: &str,
+    ) -> Result<Vec<(u64, u64)>, StorageError> {
+        let resolver = PageResolver::new(self.mem.clone());
+        let system_tree = TableTree::new(
+            system_root,
+            PageHint::None,
+            Arc::new(TransactionGuard::untracked()),
+            resolver.clone(),
+        )?;
+        let mut result = vec![];
+        let definition = match system_tree
+            .get_table::<TransactionIdWithPagination, PageList>(name, TableType::Normal)
+        {
+            Ok(x) => x,
+            Err(TableError::TableDoesNotExist(_)) => None,
+            Err(TableError::Storage(e)) => return Err(e),
+            Err(e) => return Err(StorageError::Corrupted(alloc::format!("{e}"))),
+        };
+        if let Some(InternalTableDefinition::Normal { table_root, .. }) = definition {
+            let table: ReadOnlyTable<TransactionIdWithPagination, PageList<'static>> =
+                ReadOnlyTable::new(
+                    name.to_string(),
+                    table_root,
+                    PageHint::None,
+                    Arc::new(TransactionGuard::untracked()),
+                    resolver,
+                )?;
+            for entry in ReadableTable::iter(&table)? {
+                let (key, pages) = entry?;
+                let id = key.value().transaction_id;
+                for i in 0..pages.value().len() {
+                    result.push((id, u64::from_le_bytes(pages.value().get(i).to_le_bytes())));
+                }
+            }
+        }
+        Ok(result)
+    }
+
+    /// Verification hook: the owner sets as seen from the latest roots
+    pub fn verif_owners(&self) -> Result<crate::verif_types::VerifOwners, StorageError> {
+        let data_root = self.mem.get_data_root();
+        let system_root = self.mem.get_system_root();
+        let conv = |h: Option<BtreeHeader>| {
+            h.map(|h| (u64::from_le_bytes(h.root.to_le_bytes()), h.checksum, h.length))
+        };
+        Ok(crate::verif_types::VerifOwners {
+            data_tree_pages: self.verif_tree_pages(conv(data_root))?,
+            system_tree_pages: self.verif_tree_pages(conv(system_root))?,
+            data_freed: self.verif_page_list_table(system_root, DATA_FREED_TABLE.name())?,
+            system_freed: self.verif_page_list_table(system_root, SYSTEM_FREED_TABLE.name())?,
+            data_allocated: self.verif_page_list_table(system_root, DATA_ALLOCATED_TABLE.name())?,
+        })
+    }
+}
